@@ -1003,6 +1003,14 @@ def unit_canon_inplace(ctx, harness, stats):
 def gen_conv_archive(rng, rb=b""):
     """small archive with colliding names (mostly below `rb` when --root-becomes is used)"""
     comps = [b"a", b"b", b"c", b"r", b"d1", b"x", b"y", b"rx", b"q"]
+    if rng.random() < 0.12:                                   # name components at the SquashFS limit: 255/256 are stored, 257+ refused
+        comps = comps + [b"L" * rng.choice([255, 256, 257, 300])]
+    def hdr(name, **kw):
+        if len(name) > 99:                                    # long names travel in a GNU 'L' record
+            kw["dialect"] = "gnu"
+            return gnu_long(b"L", name) + mk_header(name=name[:100], **kw)
+        return mk_header(name=name, **kw)
+
     n = rng.randint(1, 9)
     out = b""
     used = []
@@ -1026,16 +1034,16 @@ def gen_conv_archive(rng, rb=b""):
         if kind == "dir":
             if rng.random() < 0.7 and not path.endswith(b"/"):
                 path += b"/"
-            out += mk_header(name=path, mode=mode, uid=uid, gid=gid, mtime=mtime, typeflag=b"5", dialect=rng.choice(["ustar", "gnu", "v7"]), style=style)
+            out += hdr(name=path, mode=mode, uid=uid, gid=gid, mtime=mtime, typeflag=b"5", dialect=rng.choice(["ustar", "gnu", "v7"]), style=style)
         elif kind == "file":
             data = bytes(rng.randrange(256) for _ in range(rng.choice([0, 1, 5, 512, 700])))
-            out += mk_header(name=path, mode=mode, uid=uid, gid=gid, mtime=mtime, size=len(data), typeflag=b"0", dialect="ustar", style=style) + pad512(data)
+            out += hdr(name=path, mode=mode, uid=uid, gid=gid, mtime=mtime, size=len(data), typeflag=b"0", dialect="ustar", style=style) + pad512(data)
         elif kind == "slink":
-            out += mk_header(name=path, mode=0o777, uid=uid, gid=gid, mtime=mtime, typeflag=b"2", linkname=rng.choice(LINK_POOL), dialect="gnu", style=style)
+            out += hdr(name=path, mode=0o777, uid=uid, gid=gid, mtime=mtime, typeflag=b"2", linkname=rng.choice(LINK_POOL), dialect="gnu", style=style)
         elif kind == "fifo":
-            out += mk_header(name=path, mode=mode, uid=uid, gid=gid, mtime=mtime, typeflag=b"6", dialect="ustar", style=style)
+            out += hdr(name=path, mode=mode, uid=uid, gid=gid, mtime=mtime, typeflag=b"6", dialect="ustar", style=style)
         else:
-            out += mk_header(name=path, mode=mode, uid=uid, gid=gid, mtime=mtime, typeflag=b"3" if kind == "chr" else b"4", dialect="ustar", style=style,
+            out += hdr(name=path, mode=mode, uid=uid, gid=gid, mtime=mtime, typeflag=b"3" if kind == "chr" else b"4", dialect="ustar", style=style,
                              maj=rng.choice([0, 1, 8, 255, 4095]), minr=rng.choice([0, 1, 255, 256, (1 << 20) - 1]))
     return out + b"\0" * 1024
 
